@@ -384,6 +384,7 @@ def main():
         r = {k: m[k] for k in ("id", "property", "file", "what", "needs")}
         r["pending"] = bool(m.get("pending"))
         r["status"] = "ok"
+        r["repo_head"] = subprocess.run(["git", "-C", REPO, "rev-parse", "--short", "HEAD"], stdout=subprocess.PIPE, text=True).stdout.strip()
         if r["pending"]:
             ov, st, note = prepare(m)  # still say whether the text is current
             r["status"], r["note"] = ("ok", "") if st == "ok" else (st, note)
